@@ -38,6 +38,8 @@ use crate::table::bellerophon_powers;
 ///
 /// This has been modified to return a biased, rather than unbiased exponent.
 pub fn bellerophon<F: RawFloat, const FORMAT: u128>(num: &Number, lossy: bool) -> ExtendedFloat80 {
+    #[cfg(lexical_verif)]
+    lexical_util::verif::hit(lexical_util::verif::PARSE_BELLEROPHON);
     let format = NumberFormat::<{ FORMAT }> {};
     debug_assert!(
         !matches!(format.radix(), 2 | 4 | 8 | 16 | 32),
